@@ -82,7 +82,7 @@ def gen_case(rng):
     return {"world": world, "cfg": cfg, "allow": rng.random() < 0.7, "plan_flag": rng.random() < 0.7, "dry_run": rng.random() < 0.15, "backend": backend,
             # how the plan's request reaches the gate: Plan.reflection, or the flag the LLM planner path stashes on the state
             "flag_via": rng.choice(["plan", "plan", "stash"]),
-            "fault": fault, "exc": rng.randrange(len(EXCS)), "agent": rng.choice(["A", "B", "Ünï"]), "turn": rng.choice([1, 7, 12]),
+            "fault": fault, "exc": rng.randrange(len(EXCS)), "agent": rng.choice(["A", "B", "Ünï"]), "turn": rng.choice([0, 0, 1, 7, 12, "0", "t7"]),
             "text": rng.choice(["hello world", "moon river cat", "", "!!!", "tree " * 50]), "completion": rng.choice(["short summary", "multi\nline\tcompletion with   spaces", "w " * 400, "ünï ✓"]),
             "clock2": {"pc_step": rng.choice([0.0, 1e-6]), "wall": rng.choice([1.0e9, 3.0e9])}}
 
